@@ -59,6 +59,11 @@ func build(g *gramenum.Gram, inputs []gramenum.Input, sameAttr, minimize, optimi
 }
 
 func buildM(g *gramenum.Gram, inputs []gramenum.Input, sameAttr, minimize, optimize bool, marker int) (*lalr.Grammar, *lalr.Tables, error) {
+	attrVariant := 0
+	if marker <= -2 { // encoded: -2 = attribute variant 2 without marker
+		attrVariant = 2
+		marker = -1
+	}
 	lg := g.ToLalr(inputs)
 	if marker >= 0 {
 		lg = g.WithMarker(inputs, marker, len(g.Rules[marker].RHS))
@@ -66,6 +71,13 @@ func buildM(g *gramenum.Gram, inputs []gramenum.Input, sameAttr, minimize, optim
 	if sameAttr {
 		for i := range lg.Rules {
 			lg.Rules[i].Action = 0
+		}
+	}
+	if attrVariant == 2 {
+		// one shared non-zero action, node types alternate: rules differ only in their type
+		for i := range lg.Rules {
+			lg.Rules[i].Action = 1
+			lg.Rules[i].Type = i % 2
 		}
 	}
 	var tbl *lalr.Tables
@@ -156,9 +168,12 @@ func run(c *core.Ctx) {
 		for _, inputs := range configs(g) {
 			for _, same := range []bool{false, true} {
 				for _, optz := range []bool{false, true} {
-				for marker := -1; marker < len(g.Rules); marker++ {
+				for marker := -2; marker < len(g.Rules); marker++ {
 					if marker >= 0 && (!same || optz) {
 						continue // marker variants: equal rule attributes only (that is where lengths decide the classes)
+					}
+					if marker == -2 && (same || optz) {
+						continue // attribute variant "same non-zero action, alternating node type": once
 					}
 					lg, t0, e0 := buildM(g, inputs, same, false, optz, marker)
 					_, t1, e1 := buildM(g, inputs, same, true, optz, marker)
@@ -172,7 +187,7 @@ func run(c *core.Ctx) {
 						continue
 					}
 					c.Eval(1)
-					if t1.NumStates < t0.NumStates && marker < 0 {
+					if t1.NumStates < t0.NumStates && marker == -1 {
 						atomic.AddInt64(&merged, 1)
 						c.Outcome("states-merged", 1)
 					} else {
